@@ -326,9 +326,13 @@ Definition api_step (c : scfg) (ks : nat -> list N) (a : ast) (o : op) : ast * l
            [], RNone)
       end
   | OSendPrepared i =>
-      (* sendPreparedMessage: self.sendData(preparedMsg.payloadHybi)  -- no state check at all *)
+      (* sendPreparedMessage: size limit, then self.sendData(preparedMsg.payloadHybi)  -- no state check at all *)
       match nth_error (prepared a) i with
-      | Some pm => (a, [mkSd (pm_hybi pm) false None], RNone)
+      | Some pm =>
+          (* payload_len = preparedMsg.payloadLength; if 0 < self.maxMessagePayloadSize < payload_len: raise *)
+          if (0 <? max_message_payload_size c) && (max_message_payload_size c <? lenN (pm_payload pm))
+          then (a, [], RRaise ExPayloadExceeded)
+          else (a, [mkSd (pm_hybi pm) false None], RNone)
       | None => (a, [], RRaise ExAssertion)          (* harness artefact: no such object; never generated *)
       end
   | OBeginMessage is_binary =>
@@ -462,6 +466,24 @@ Fixpoint run (c : scfg) (ks : nat -> list N) (s : sst) (ops : list op) : sst * l
               let '(s2, outs) := run c ks s1 r in (s2, (w, rt) :: outs)
   end.
 
+(* TWO connections living in one process: every operation is addressed to one of them (true = the first).  Each
+   connection has its own state value -- in the code: instance attributes assigned in _connectionMade -- so the
+   product is just the two models side by side; that the real objects share nothing is checked by the runs
+   (several real connections in one process fed interleaved segments), not by a theorem. *)
+Fixpoint run2 (c1 c2 : scfg) (ks1 ks2 : nat -> list N) (s1 s2 : sst) (ops : list (bool * op))
+  : (sst * sst) * list (bool * (list (list N) * ret)) :=
+  match ops with
+  | [] => ((s1, s2), [])
+  | (true, o) :: r =>
+      let '(s1', w, rt) := step c1 ks1 s1 o in
+      let '(ss, outs) := run2 c1 c2 ks1 ks2 s1' s2 r in (ss, (true, (w, rt)) :: outs)
+  | (false, o) :: r =>
+      let '(s2', w, rt) := step c2 ks2 s2 o in
+      let '(ss, outs) := run2 c1 c2 ks1 ks2 s1 s2' r in (ss, (false, (w, rt)) :: outs)
+  end.
+Definition sel {A} (b : bool) (l : list (bool * A)) : list A :=
+  map snd (filter (fun x => Bool.eqb (fst x) b) l).
+
 (* let the reactor run until the write queue is drained: _send fires until it finds the queue empty *)
 Fixpoint drain_loop (fuel : nat) (ps : pstate) (q : qst) : qst * list (list N) :=
   match fuel with
@@ -507,7 +529,9 @@ Definition spec_step (c : scfg) (prep : list (list N * bool)) (s : spst) (o : op
   | OPrepare p b => if lenN p <=? max_len then Some (s, prep ++ [(p, b)], []) else None
   | OSendPrepared i =>
       match s, nth_error prep i with
-      | SpGround, Some (p, b) => Some (s, prep, [EvMessage b p])
+      | SpGround, Some (p, b) =>
+          if (max_message_payload_size c =? 0) || (lenN p <=? max_message_payload_size c)
+          then Some (s, prep, [EvMessage b p]) else None
       | _, _ => None
       end
   | OBeginMessage b => match s with SpGround => Some (SpBegun b, prep, []) | _ => None end
